@@ -157,7 +157,19 @@ def run(ctx):
         for i, k, s in b.stmts():
             if s["k"] == "assign" and s["rv"]["k"] == "bin" and s["rv"]["op"] == "Eq":
                 e = strip_sym(sy.rvalue(s["rv"], 0, frozenset()))
-                l, r = strip_sym(e[2]), strip_sym(e[3])
+                def _payload(x):
+                    # `match helper() { Some(n) => n == .., None => .. }` with the helper spliced in: the Some payload of the
+                    # one alternative that builds Some(..)
+                    x = strip_sym(x)
+                    if x[0] == "field" and strip_sym(x[1])[0] == "downcast" and strip_sym(x[1])[2] == "Some":
+                        y = strip_sym(strip_sym(x[1])[1])
+                        alts = [strip_sym(z) for z in y[1]] if y[0] == "phi" else [y]
+                        somes = [z for z in alts if z[0] == "agg" and z[2] == "Some" and len(z[3]) == 1]
+                        if len(somes) == 1 and all(z[0] == "agg" and z[2] in ("Some", "None") for z in alts):
+                            return strip_sym(somes[0][3][0])
+                    return x
+
+                l, r = _payload(e[2]), _payload(e[3])
                 for a, c in ((l, r), (r, l)):
                     if sym_is_call(a, "cmp::min") and sym_is_call(c, "Block<T>::len"):
                         m0, m1 = strip_sym(a[2][0]), strip_sym(a[2][1])
